@@ -67,13 +67,13 @@ if REUSE:
 else:
   t = sh(['/venv/bin/python', '-m', 'pytest', '-q', '-p', 'no:cacheprovider', '--timeout=180',
         '--deselect', 'tests/net/test_tcp.py::test_tcp_lookup_failure', '--deselect', 'tests/core/test_signals.py',
-        '--deselect', 'tests/app/test_daemon.py', '-x'] + sorted(dirs), cwd=wt, timeout=900)
+        '--deselect', 'tests/app/test_daemon.py', '--deselect', 'tests/core/test_bridge.py', '-x'] + sorted(dirs), cwd=wt, timeout=900)
 if t.returncode != 0:
     print('first test run failed:', [l for l in t.stdout.splitlines() if l.startswith('FAILED')])
     # load-sensitive tests: one retry of the failures only
     t = sh(['/venv/bin/python', '-m', 'pytest', '-q', '--timeout=180', '--lf',
             '--deselect', 'tests/net/test_tcp.py::test_tcp_lookup_failure', '--deselect', 'tests/core/test_signals.py',
-            '--deselect', 'tests/app/test_daemon.py'] + sorted(dirs), cwd=wt, timeout=900)
+            '--deselect', 'tests/app/test_daemon.py', '--deselect', 'tests/core/test_bridge.py'] + sorted(dirs), cwd=wt, timeout=900)
 meta['tests_run'] = sorted(dirs)
 meta['tests_tail'] = t.stdout.strip().splitlines()[-1] if t.stdout.strip() else ''
 meta['tests_pass'] = t.returncode == 0
